@@ -30,6 +30,9 @@ var detCases = []detCase{
 	{"hnet", "omission", 100, true},
 	{"hstore", "intact", 30, true},
 	{"hstore", "bitrot", 30, true},
+	{"hapi", "default", 400, true},
+	{"hstall", "default", 400, true},
+	{"htwins", "default", 150, false},
 	{"hdec", "default", 150, false},
 	{"hcli", "default", 24, false},
 	{"hbits", "benign", 24, false},
